@@ -172,8 +172,34 @@ def _trees(draw):
     return vals
 
 
+@st.composite
+def _alias_tuples(draw):
+    """a heap Tuple that holds the same object at several positions, used as the LEFT operand only (as a right operand
+    or under iteration such a tuple is the C11 known finding); compared with Arrays / Lists of the same element values"""
+    et = draw(st.sampled_from(["Int", "String"]))
+    pool = draw(st.lists(_elems(et), min_size=1, max_size=3))
+    idx = draw(st.lists(st.integers(0, len(pool) - 1), min_size=2, max_size=6))
+    seqv = [pool[i] for i in idx]
+    vals = [["atup", et, pool, idx]]
+    for _ in range(2):
+        how = draw(st.integers(0, 4))
+        items = list(seqv)
+        if how == 1:
+            items = items[:draw(st.integers(0, len(items)))]
+        elif how == 2:
+            items = items + [draw(_elems(et))]
+        elif how == 3:
+            items[-1] = draw(_elems(et))
+        elif how == 4:
+            j = draw(st.integers(0, len(items) - 1))
+            items[j] = draw(_elems(et))
+        vals.append(["seq", draw(st.sampled_from(["Array", "List"])), et, items])
+    return vals
+
+
 def strategy(tier):
     vals = st.one_of(
+        _alias_tuples(),
         _related_ints(), _related_ints(), _related_strs(), _related_flts(),
         st.lists(_scalar("type"), min_size=3, max_size=3),
         st.lists(_scalar("blob"), min_size=3, max_size=3),
@@ -232,6 +258,14 @@ def encode(case):
                 a = fresh()
                 lines.append("new %%%d heap t:Array t:%s %s" % (a, tn, lit))
                 lines.append("get %%%d i:0 %%%d" % (a, i))
+        elif k == "atup":
+            _, et, pool, idx = v
+            ps = []
+            for e in pool:
+                sl = fresh()
+                lines.append("new %%%d heap t:%s %s" % (sl, et, _enc_elem(et, e)))
+                ps.append("%%%d" % sl)
+            lines.append("new %%%d heap t:Tuple %s" % (i, " ".join(ps[j] for j in idx)))
         elif k == "seq":
             _, kind, et, items = v
             if kind == "Tuple":
@@ -300,6 +334,8 @@ def ref_value(v, obs_tree=None):
         return bytes.fromhex(v[1])
     if k == "type":
         return v[1].encode()
+    if k == "atup":
+        return [_elem_key(v[1], v[2][j]) for j in v[3]]
     if k == "seq":
         return [_elem_key(v[2], e) for e in v[3]]
     if k == "tree":
@@ -361,9 +397,14 @@ def run_case(ctx, case):
     lines = encode(case)
     prog = [l for l in lines if l != "mark"]
     pairs = [(i, j) for i in range(3) for j in range(3)]
+    if case["vals"][0][0] == "atup":
+        pairs = [(0, 1), (0, 2), (1, 2), (2, 1), (1, 1), (2, 2)]      # the aliased tuple only ever on the left
     for (i, j) in pairs:
         prog.append("cmp %%%d %%%d" % (i, j))
     kind = case["vals"][0][0]
+    if kind == "atup":
+        kind = "seq"
+        ev_alias = True
     follow = kind in ("int", "str", "flt")
     if follow:
         tn = {"int": "Int", "str": "String", "flt": "Float"}[kind]
@@ -419,14 +460,14 @@ def run_case(ctx, case):
         if p != wp:
             return Result("predicates eq,neq,lt,gt,le,ge=%s but cmp sign %d implies %s" % (p, c, wp), True, ev, obs)
     for (i, j) in pairs:
-        if got[(i, j)] != -got[(j, i)]:
+        if (j, i) in got and got[(i, j)] != -got[(j, i)]:
             return Result("antisymmetry violated for (%d,%d)" % (i, j), True, ev, obs)
         if i == j and got[(i, j)] != 0:
             return Result("cmp(a,a) != 0", True, ev, obs)
     for i in range(3):
         for j in range(3):
             for k in range(3):
-                if got[(i, j)] <= 0 and got[(j, k)] <= 0 and got[(i, k)] > 0:
+                if (i, j) in got and (j, k) in got and (i, k) in got and got[(i, j)] <= 0 and got[(j, k)] <= 0 and got[(i, k)] > 0:
                     return Result("transitivity violated (%d,%d,%d)" % (i, j, k), True, ev, obs)
     if follow:
         tail = obs[-4:]
